@@ -381,6 +381,123 @@ def oracle_late(stream):
                        "arguments vs the same call with epsrel=1e-10, subdiv_limit=4000"})
 
 
+# --- custom j-functions with gaps / bands vs an independent frequency integral ---------------
+
+def _j_gap(w):          # zero on [0, 1.5), kink at 1.5
+    return 0.3 * (w - 1.5) if w > 1.5 else 0.0
+
+
+def _j_node(w):         # smooth, double zero at w = 1
+    return 0.5 * w * (w - 1.0) ** 2
+
+
+def _j_band(w):         # zero beyond 1.3 (jump), so also at 2*cutoff
+    return 0.6 * w if w < 1.3 else 0.0
+
+
+GAP_CASES = [
+    # label, j, breakpoints of j (for the reference quadrature), cutoff
+    ("zero below 1.5", _j_gap, [1.5], 2.0),
+    ("zero at cutoff/2", _j_node, [1.0], 2.0),
+    ("zero beyond 1.3", _j_band, [1.3], 2.0),
+]
+
+
+def freq_integral(fun, breaks, wc, ct, wmax_hint):
+    """composite Gauss-Legendre (16 nodes per panel) of fun(w) over (0, cutoff) and, unless the
+    cutoff is hard, on to where the cutoff function is < 1e-17; panels end at the breakpoints of j"""
+    top = wc if ct == "hard" else (wc * 40.0 if ct == "exponential" else wc * 6.5)
+    edges = sorted(set([0.0, top] + [b for b in breaks if 0.0 < b < top] + ([wc] if wc < top else [])))
+    xs, ws = gauss(16)
+    tot = 0.0
+    for lo, hi in zip(edges[:-1], edges[1:]):
+        n = max(1, int(math.ceil((hi - lo) / wmax_hint)))
+        h = (hi - lo) / n
+        for k in range(n):
+            a_, b_ = lo + k * h, lo + (k + 1) * h
+            w = 0.5 * (b_ - a_) * xs + 0.5 * (b_ + a_)
+            tot = tot + 0.5 * (b_ - a_) * np.sum(ws * fun(w))
+    return tot
+
+
+def gap_reference(obj, breaks, temp):
+    """C(tau), eta(t), eta'(t) from J = obj.spectral_density by an independent quadrature"""
+    wc, ct = obj.cutoff, obj.cutoff_type
+
+    def coth(w):
+        return 1.0 / np.tanh(w / (2 * temp)) if temp > 0 else np.ones_like(w)
+
+    def J(w):
+        return np.asarray(obj.spectral_density(w), dtype=float)
+
+    def panel(t):
+        return min(0.25 * wc, 1.5 / max(abs(t), 1e-9))
+
+    def corr(tau):
+        return complex(freq_integral(lambda w: J(w) * (coth(w) * np.cos(w * tau) - 1j * np.sin(w * tau)),
+                                     breaks, wc, ct, panel(tau)))
+
+    def eta(t):
+        return complex(freq_integral(lambda w: J(w) / w ** 2 * (coth(w) * (1 - np.cos(w * t))
+                                                               - 1j * (w * t - np.sin(w * t))),
+                                     breaks, wc, ct, panel(t)))
+
+    def gint(t):
+        return complex(freq_integral(lambda w: J(w) / w * (coth(w) * np.sin(w * t) - 1j * (1 - np.cos(w * t))),
+                                     breaks, wc, ct, panel(t)))
+    return corr, eta, gint
+
+
+def oracle_gaps(stream, tier="quick"):
+    """yields (key, payload or None)"""
+    from oqupy.bath_correlations import CustomSD
+    dt = 0.35
+    cells = [("upper-triangle", 0.0, None), ("square", dt, None), ("rectangle", 2 * dt, 2.6 * dt),
+             ("square", 3 * dt, None), ("upper-triangle", 1.5 * dt, None)]
+    for (label, jf, breaks, wc) in GAP_CASES:
+        for ct in CUTOFFS:
+            for temp in ([0.0] if tier == "quick" and ct != "exponential" else [0.0, 0.7]):
+                with stream("gaps"):
+                    obj = CustomSD(jf, cutoff=wc, cutoff_type=ct, temperature=temp)
+                    corr, eta, gint = gap_reference(obj, breaks, temp)
+                    c0 = abs(corr(0.0))
+                    bad = None
+                    for tau in (0.4, 1.3, -0.9):
+                        v, r = complex(obj.correlation(tau)), corr(tau)
+                        if abs(v - r) > 1e-6 * (abs(r) + c0):
+                            bad = {"quantity": "correlation(%g)" % tau, "library": [v.real, v.imag],
+                                   "independent": [r.real, r.imag]}
+                            break
+                key = "CustomSD with a j-function that is %s (%s cutoff): correlation() vs an " \
+                      "independent frequency integral of spectral_density()" % (label, ct)
+                if bad is not None:
+                    bad.update({"class": "CustomSD", "j_function": label, "cutoff": wc, "cutoff_type": ct,
+                                "temperature": temp,
+                                "how": "CustomSD(j, cutoff, cutoff_type, temperature).correlation(tau) vs "
+                                       "composite Gauss-Legendre of J(w)(coth(w/2T) cos(w tau) - i sin(w tau)) "
+                                       "with J = obj.spectral_density (tolerance 1e-6 of |C(tau)| + |C(0)|)"})
+                yield key, bad
+                with stream("gaps"):
+                    bad = None
+                    for (shape, t1, t2) in cells[:(3 if tier == "quick" else 5)]:
+                        v = complex(obj.correlation_2d_integral(dt, t1, t2, shape))
+                        r = complex(exact_cell(eta, gint, shape, dt, t1, t2))
+                        terms = eta_terms(obj, shape, dt, t1, t2)
+                        if abs(v - r) > 1e-6 * abs(r) + 2e-5 * terms:
+                            bad = {"shape": shape, "delta": dt, "time_1": t1, "time_2": t2,
+                                   "library": [v.real, v.imag], "independent": [r.real, r.imag]}
+                            break
+                key = "CustomSD with a j-function that is %s (%s cutoff): 2D integrals vs an " \
+                      "independent frequency integral of spectral_density()" % (label, ct)
+                if bad is not None:
+                    bad.update({"class": "CustomSD", "j_function": label, "cutoff": wc, "cutoff_type": ct,
+                                "temperature": temp,
+                                "how": "obj.correlation_2d_integral(delta, time_1, time_2, shape) vs the cell "
+                                       "formed from eta(t) = int J(w)/w^2 [coth (1 - cos wt) - i(wt - sin wt)] dw "
+                                       "(composite Gauss-Legendre, J = obj.spectral_density)"})
+                yield key, bad
+
+
 # --- scale covariance and the memo tie ------------------------------------------------------
 # A change of the time unit by s (cutoff/s, T/s, times*s) leaves every cell unchanged and
 # multiplies C by 1/s^2.  Measured on the unchanged tree: hard cutoff invariant to 3e-14 for
@@ -818,7 +935,12 @@ def correspondence(res, tier, rng):
             res.count("memo-tie")
             if bad is not None:
                 res.disagree(KEY_MEMO, bad)
-    mark("(g) scale covariance, memo tie")
+    for key, bad in oracle_gaps(wlog, tier):
+        res.case(key + " #%d" % res.cases, True)
+        res.count("gapped-j:" + key.split("(")[1].split(" ")[0])
+        if bad is not None:
+            res.disagree(key, bad)
+    mark("(g) scale covariance, memo tie, gapped j")
     phase("(a) shape calls")
 
     points = list(QUICK_POINTS)
@@ -1122,6 +1244,10 @@ def search(res, rng=None, budget_points=None):
         if bad is not None and key not in seen:
             seen.add(key)
             res.fail(key, bad)
+    for key, bad in oracle_gaps(WarningLog(), res.tier):
+        if bad is not None and key not in seen:
+            seen.add(key)
+            res.fail(key, bad)
     # scale covariance, memo tie
     import itertools
     for key, bad in itertools.chain(oracle_scale(WarningLog()), oracle_coupling(WarningLog())):
@@ -1237,6 +1363,12 @@ def replay_case(res, payload):
                 res.fail(k, bad)
                 return True
         return False
+    if key.startswith("CustomSD with a j-function"):
+        for k, bad in oracle_gaps(WarningLog(), "thorough"):
+            if bad is not None and k == key:
+                res.fail(k, bad)
+                return True
+        return False
     if key.startswith("late-time"):
         again = False
         for k, bad in oracle_late(WarningLog()):
@@ -1292,7 +1424,10 @@ def run(tier, seed, replay):
         "imaginary time vs integration of the Matsubara correlation; squares/rectangles straddling "
         "the diagonal (0 <= time_1 < delta) and rectangles narrower than delta for PowerLawSD "
         "(direct integration) and CustomCorrelations (analytic), square(0) = 2 Re triangle(0), "
-        "rect[a,b] + rect[b,a+delta] = square(a).  Distinct = distinct "
+        "rect[a,b] + rect[b,a+delta] = square(a); CustomSD with gapped / band-limited j-functions "
+        "(zero below a, zero at cutoff/2, zero beyond b; all cutoff types, T = 0 and > 0): "
+        "correlation() and cells vs an independent composite Gauss-Legendre frequency integral "
+        "of spectral_density().  Distinct = distinct "
         "protocol line / oracle call; non-trivial = a shape call that used >= 2 eta values, any "
         "integrand/oracle evaluation.")
     res.assumptions = [
